@@ -537,6 +537,7 @@ class Respondent(httping.Parsent):
 
         if self.chunked:  # content-length is ignored if chunked
             self.parms = odict()
+            self.trails = None  # not those of a previous message
             while True:  # parse all chunks here
                 chunkParser = httping.parseChunk(raw=self.msg)
                 while True:  # parse another chunk
